@@ -49,6 +49,7 @@ func init() {
 		"Static ordering rules for the WAL: sync append = write + flush + fsync before a nil return (must-pass-through on the CFG), AppendSync uses the fsyncing writer call, rotation closes the old file before creating the next, size check precedes each write, replay sorts the fixed-width file names before reading, and replay classifies every truncation-class reader error as end of log (E-TORN). Decides the orderings on all paths; sequence equality and crash-point enumeration are not decided.",
 		durAssume, func(r *Report) {
 			ruleWriteFlushFsync(r)
+			ruleTornRecordIsNotEOF(r)
 			ruleNoMergeDecode(r)
 			ruleStickyWriteError(r)
 			ruleSyncFailureRollsBack(r)
@@ -98,6 +99,7 @@ func init() {
 			ruleHeaderAtOpen(r)
 			ruleFreshWalDir(r)
 			ruleWalReclaim(r)
+			ruleTornRecordIsNotEOF(r)
 			ruleReplayCountsEveryMutation(r)
 			ruleReplayClosesPerFile(r)
 		})
